@@ -385,7 +385,12 @@ let cs_cmd (args : string list) : string =
      | _ -> "unsupported")
   | ["end"; id] -> run (SEnd (ns id))
   | ["commit"; id; keys; fail] -> run (SCommit (ns id, keys_of keys, fail = "1"))
-  | ["checkpoint"] -> cs_ckpt := Some !cs_state.c_visible; cs_calls := []; "ok"
+  | ["checkpoint"] ->
+    (* create_checkpoint records the manifest's last sequence number after flushing: the stamp of the newest commit the
+       store CONTAINS (= visible, except after the restore of an empty checkpoint, which empties the store and leaves the
+       counters where they were: set_seq_num does nothing for 0) *)
+    cs_ckpt := Some (List.fold_left (fun a (m, _) -> if int_of_n m > int_of_n a then m else a) (n_of_int 0) !cs_state.c_done);
+    cs_calls := []; "ok"
   | ["restore"] -> (match !cs_ckpt with None -> "nockpt" | Some m -> run (SRestore m))
   | ["restoreto"; m] -> run (SRestore (ns m))       (* model only *)
   | ["calls"] -> if !cs_calls = [] then "-" else String.concat "|" (List.map show_call !cs_calls)   (* model only *)
